@@ -151,6 +151,42 @@ def build_repo(kind="san"):
         return {"dir": d, "corr": os.path.join(d, "corr"), "hash": hsh}
 
 
+ALLOC_MACROS = ["-Dmalloc=verif_malloc", "-Dcalloc=verif_calloc", "-Drealloc=verif_realloc", "-Dstrdup=verif_strdup",
+                "-Dfree=verif_free"]
+
+
+def build_af():
+    """C18 build: the library compiled with its allocator calls renamed (so that exactly libhtp's allocations can be counted,
+    traced and failed) + harness/af/afail.c, ASan+UBSan+LSan. Cached by content hash like build_repo."""
+    af_srcs = [os.path.join(HARNESS, "af", "afail.c"), os.path.join(HARNESS, "h_cfg.c"), os.path.join(HARNESS, "corr.h")]
+    hsh = tree_hash(af_srcs)
+    d = os.path.join(BUILD, "repo_af_%s" % hsh)
+    with Lock("repo_af"):
+        if os.path.exists(os.path.join(d, "OK")):
+            os.utime(d)
+            return {"dir": d, "afail": os.path.join(d, "afail"), "hash": hsh}
+        if os.path.exists(d):
+            shutil.rmtree(d)
+        os.makedirs(d)
+        srcs, _ = repo_sources()
+        flags = list(CFLAGS_COMMON) + SAN
+        objs, err = _compile_many("clang", flags + ALLOC_MACROS, srcs, d)
+        if err:
+            shutil.rmtree(d, ignore_errors=True)
+            raise BuildError(err)
+        hobjs, err = _compile_many("clang", flags + ["-I" + HARNESS], [x for x in af_srcs if x.endswith(".c")], d)
+        if err:
+            shutil.rmtree(d, ignore_errors=True)
+            raise BuildError(err)
+        r = run(["clang"] + SAN + objs + hobjs + ["-lz", "-lpthread", "-o", os.path.join(d, "afail")])
+        if r.returncode != 0:
+            shutil.rmtree(d, ignore_errors=True)
+            raise BuildError("link failed\n" + r.stderr[-3000:])
+        open(os.path.join(d, "OK"), "w").write("ok\n")
+        _prune("repo_af_", keep=3)
+        return {"dir": d, "afail": os.path.join(d, "afail"), "hash": hsh}
+
+
 def _prune(prefix, keep):
     ds = sorted(glob.glob(os.path.join(BUILD, prefix + "*")), key=os.path.getmtime, reverse=True)
     for old in ds[keep:]:
